@@ -1,4 +1,5 @@
 import BarterModel.Lemmas.DataSet
+import BarterModel.Lemmas.KernelsAgree.Welford
 /-!
 # C17 — Running dataset statistics equal the statistics of the whole dataset
 
@@ -135,5 +136,22 @@ example : (Summary.run id [1, 2, 3, 6]).mean = 3 := by decide +kernel
 example : (Summary.run id [1, 2, 3, 6]).dispersion.variance = 7/2 := by decide +kernel
 example : (Summary.run id [6, 1, 3, 2]).dispersion.range = ⟨true, 6, 1⟩ := by decide +kernel
 example : Summary.run id [1, 2, 3, 6] ≠ Summary.run id [1, 2, 3, 7] := by decide +kernel
+
+/-- **Tie to the source by translation.** The three `welford_online` kernels the model's
+`Summary.update` / `Dispersion.update` are built from are not only hand-written: on every run
+`tools/rust2lean.py` regenerates `BarterModel.Generated.welford_online.*` from the current
+`barter/src/statistic/algorithm.rs`, and the generated definitions equal the model's for all
+arguments. A change of one of these kernels in the source makes this theorem fail to build. -/
+theorem kernels_agree_with_source :
+    (∀ prevMean nextValue count : Rat,
+        BarterModel.Generated.welford_online.calculate_mean prevMean nextValue count
+          = calculateMean prevMean nextValue count)
+    ∧ (∀ prevM prevMean newValue newMean : Rat,
+        BarterModel.Generated.welford_online.calculate_recurrence_relation_m prevM prevMean newValue newMean
+          = calculateRecurrenceRelationM prevM prevMean newValue newMean)
+    ∧ (∀ m count : Rat,
+        BarterModel.Generated.welford_online.calculate_population_variance m count
+          = calculatePopulationVariance m count) :=
+  BarterModel.KernelsAgree.welford_kernels_agree
 
 end BarterModel.Props.C17
